@@ -386,10 +386,51 @@ def delKeys : List Key → KV → KV
   | [], cfg => cfg
   | k :: r, cfg => delKeys r (delTargetKey k cfg)
 
-def stripLinkTargetKeys (p : Parser) (cfg : KV) : KV := delKeys (stripKeys p) cfg
+/-- `strip_link_target_keys` BEFORE 74a7bb8 (F70): namespace paths only.  Kept as the regression record of the repaired
+    finding 15c (`C15_list_item_target_in_dump`): the items of a list of classes kept the target. -/
+def stripLinkTargetKeysOld (p : Parser) (cfg : KV) : KV := delKeys (stripKeys p) cfg
+
+/-- `item.pop("init_args.X", None)`, then `if "init_args" in item and not item["init_args"]: del item["init_args"]` -/
+def stripItem (child : Key) (kvs : KV) : KV :=
+  let c1 := delKey child kvs
+  match getK [initArgs] c1 with
+  | some v => if falsy v then delKey [initArgs] c1 else c1
+  | none => c1
+
+/-- `for item in parent: if isinstance(item, Namespace): …` (mirror of `setInItems`) -/
+def stripItems (child : Key) : List V → List V
+  | [] => []
+  | .ns kvs :: r => .ns (stripItem child kvs) :: stripItems child r
+  | x :: r => x :: stripItems child r
+
+/-- one entry of `linked_targets`: `del_target_key(dest.init_args.X)`, then, when `cfg.get(dest)` is a list, its items;
+    `n` is the length of `dest` -/
+def delInitTarget (n : Nat) (t : Key) (cfg : KV) : KV :=
+  let c1 := delTargetKey t cfg
+  match getK (t.take n) c1 with
+  | some (.lst items) => setK (t.take n) (.lst (stripItems (t.drop n) items)) c1
+  | _ => c1
+
+/-- the link actions standing in `parser._actions` (first loop) -/
+def plainKeys (p : Parser) : List Key := (p.actions.filter (·.kind == .link)).map (·.dest)
+
+/-- per subclass action, its `linked_targets` (second loop), with the length of the dest -/
+def initKeys (p : Parser) : List (Nat × Key) :=
+  (p.actions.filter (·.kind.isSubT)).flatMap fun a =>
+    (p.links.filter (fun l => l.kind == .initArg a.dest.length && isPrefix a.dest l.target)).map fun l => (a.dest.length, l.target)
+
+def delInits : List (Nat × Key) → KV → KV
+  | [], cfg => cfg
+  | nt :: r, cfg => delInits r (delInitTarget nt.1 nt.2 cfg)
+
+/-- `strip_link_target_keys` (one parser level), in the code's order -/
+def stripLinkTargetKeys (p : Parser) (cfg : KV) : KV := delInits (initKeys p) (delKeys (plainKeys p) cfg)
 
 /-- what `dump` serialises -/
 def dump (p : Parser) (cfg : KV) : KV := stripLinkTargetKeys p cfg
+
+/-- what `dump` serialised before F70 -/
+def dumpOld (p : Parser) (cfg : KV) : KV := stripLinkTargetKeysOld p cfg
 
 /-- the keys written by `dump` -/
 def dumpKeys (p : Parser) (cfg : KV) : List String := keys false (dump p cfg)
